@@ -238,6 +238,10 @@ pub(crate) fn decompress(x: &[u8], n: usize) -> Option<Vec<i16>> {
             return None;
         }
         high_bits += 1;
+        // same bound on the unary part as for the other coefficients
+        if high_bits == 95 {
+            return None;
+        }
     }
 
     // test if coefficient encoded properly
